@@ -78,3 +78,118 @@ def md_union(new, a, b):
     return z3.ForAll([k], z3.And(new.has(k) == z3.Or(a.has(k), b.has(k)),
                                  z3.Implies(b.has(k), new.get(k) == b.get(k)),
                                  z3.Implies(z3.And(a.has(k), z3.Not(b.has(k))), new.get(k) == a.get(k))))
+
+
+# ---------------------------------------------------------------------------- trees
+Desc = z3.Function('Desc', z3.IntSort(), z3.IntSort(), z3.BoolSort())     # ghost: proper descendant relation of the node tree
+
+
+def children(h, r):
+    """ordered child map of composed node r (the dict object referenced by _children)"""
+    return h.m(r_of(h.get('_children', r)))
+
+
+def forall_children(h, r, phi, tag='c'):
+    """for every child c (object identity) under key k of node r: phi(k, c)"""
+    k = z3.Const(f'!k{tag}', Val)
+    m = children(h, r)
+    return z3.ForAll([k], z3.Implies(m.has(k), phi(k, r_of(m.get(k)))), patterns=[m.get(k)])
+
+
+def tree(h, r, eng=None):
+    """r is the root of a proper tree one level down (ghost Desc): children are objects, distinct, not r itself,
+    and their subtrees are disjoint and contained in r's"""
+    m = children(h, r)
+    k, k2 = z3.Const('!tk', Val), z3.Const('!tk2', Val)
+    x = z3.Int('!tx')
+    c, c2 = r_of(m.get(k)), r_of(m.get(k2))
+    return z3.And(
+        is_ref(h.get('_children', r)),
+        z3.ForAll([k], z3.And(z3.Select(m.pos, k) >= -1, z3.Select(m.pos, k) < m.len,
+                              z3.Implies(z3.Select(m.pos, k) >= 0, z3.Select(m.keyat, z3.Select(m.pos, k)) == k)), patterns=[z3.Select(m.pos, k)]),
+        z3.ForAll([k], z3.Implies(m.has(k), z3.And(is_ref(m.get(k)), c > 0, c != r, Desc(r, c), z3.Not(Desc(c, r)), z3.Not(Desc(c, c)))), patterns=[m.get(k)]),
+        z3.ForAll([k, x], z3.Implies(z3.And(m.has(k), Desc(c, x)), z3.And(Desc(r, x), x != r)), patterns=[z3.MultiPattern(m.get(k), Desc(c, x))]),
+        z3.ForAll([k, k2], z3.Implies(z3.And(m.has(k), m.has(k2), k != k2), z3.And(c != c2, z3.Not(Desc(c, c2)))), patterns=[z3.MultiPattern(m.get(k), m.get(k2))]),
+        z3.ForAll([k, k2, x], z3.Implies(z3.And(m.has(k), m.has(k2), k != k2, Desc(c, x)), z3.Not(Desc(c2, x))),
+                  patterns=[z3.MultiPattern(m.get(k), m.get(k2), Desc(c, x))]),
+        z3.Not(Desc(r, r)))
+
+
+def children_valid(h, r):
+    return forall_children(h, r, lambda k, c: valid_flags(h, c), tag='v')
+
+
+# what a child of p inherits (written from the documentation of the three sources of flags: explicit flag of the
+# parent, else what the parent itself inherited; a parent that deletes by type default makes its children delete too)
+def inh_delete(eng, h, p):
+    d, i = h.get('_delete', p), h.get('_implicit_delete', p)
+    return z3.If(is_none(d), z3.If(default_delete(eng, h.cls(p)), sym.TRUE, i), d)
+
+
+def inh_allow_new(h, p):
+    a, i = h.get('_allow_new', p), h.get('_implicit_allow_new', p)
+    return z3.If(is_none(a), i, a)
+
+
+def inh_safe(h, p):
+    s, i = h.get('_safe', p), h.get('_implicit_safe', p)
+    return z3.If(is_none(s), i, s)
+
+
+WFT = z3.Function('WFT', z3.IntSort(), z3.BoolSort())     # ghost: r is the root of a well-formed (finite, unshared) node tree
+
+
+def wft_axiom(eng, h):
+    """unfolding of WFT one level (the child structure is read from heap h)"""
+    r = z3.Int('!wr')
+    return z3.ForAll([r], z3.Implies(z3.And(WFT(r), is_composed(eng, h.cls(r))),
+                                     z3.And(tree(h, r), forall_children(h, r, lambda k, c: WFT(c), tag='w'))), patterns=[WFT(r)])
+
+
+def desc_valid(h, r):
+    x = z3.Int('!dx')
+    return z3.ForAll([x], z3.Implies(Desc(r, x), valid_flags(h, x)), patterns=[Desc(r, x)])
+
+
+def early_return(h, s):
+    """_propagate_implicit_values has nothing to do"""
+    return z3.Or(z3.And(is_none(h.get('_implicit_delete', s)), is_none(h.get('_implicit_allow_new', s)), is_none(h.get('_implicit_safe', s))),
+                 z3.And(z3.Not(is_none(h.get('_delete', s))), z3.Not(is_none(h.get('_allow_new', s))), z3.Not(is_none(h.get('_safe', s)))))
+
+
+IMPLICIT = ['_implicit_delete', '_implicit_allow_new', '_implicit_safe']
+
+
+def ghost_defs(real, ids):
+    """concrete interpretation of the ghost relations on a real object graph (replay): Desc = reachability through
+    _children, WFT = root of a subtree in which no node occurs twice"""
+    objs = {r: o for r, o in real.items() if hasattr(o, '__dict__') and '_children' in getattr(o, '__dict__', {})}
+    allnodes = {}
+    def kids(o):
+        ch = o.__dict__.get('_children')
+        return list(ch.values()) if isinstance(ch, dict) else []
+    def ref(o):
+        return ids.get(id(o))
+    pairs = set()
+    wft = set()
+    seen_all = {}
+    def walk(o, stack):
+        out = []
+        for c in kids(o):
+            if any(c is s for s in stack) or ref(c) is None:
+                continue
+            out.append(c)
+            out.extend(walk(c, stack + [c]))
+        return out
+    nodes = [o for r, o in real.items() if hasattr(o, '__dict__')]
+    for o in nodes:
+        d = walk(o, [o])
+        for x in d:
+            if ref(o) is not None and ref(x) is not None:
+                pairs.add((ref(o), ref(x)))
+        rs = [id(x) for x in d] + [id(o)]
+        if len(rs) == len(set(rs)) and ref(o) is not None:
+            wft.add(ref(o))
+    a, b = z3.Int('!ga'), z3.Int('!gb')
+    return [z3.ForAll([a, b], Desc(a, b) == z3.Or([z3.And(a == x, b == y) for x, y in sorted(pairs)] or [z3.BoolVal(False)])),
+            z3.ForAll([a], WFT(a) == z3.Or([a == x for x in sorted(wft)] or [z3.BoolVal(False)]))]
